@@ -1004,6 +1004,7 @@ class ClockHist(Sub):
             rec.check(ok, "reset:return", "%s did not return the system (the NLS docstring example chains it): %s"
                       % (what, type(r).__name__))
         originals = []
+        prev_ref = None
         for idx, op in enumerate(case["ops"]):
             k = op[0]
             tag = "op %d %s" % (idx, op)
@@ -1073,6 +1074,21 @@ class ClockHist(Sub):
                     if rs.rand() < 0.2:
                         us = np.zeros(m)
                     sa, ia = _vec(xs), _vec(us)
+                    if hs and hi and prev_ref is not None and op[4] % 3 == 0:
+                        # set_refpoint AGAIN with the tensor objects of the previous reference point: same values (only the time may
+                        # differ) or the state updated in place by the caller - the linearisation must be that of the point passed NOW
+                        # (a "nothing changed" shortcut keyed on the stored reference, which aliases the caller's tensor, is invisible
+                        # when every call gets fresh tensors)
+                        sa, ia, xs, us = prev_ref
+                        if op[4] % 2 == 0:
+                            with torch.no_grad():
+                                sa.add_(0.25)
+                            xs = xs + 0.25
+                            rec.label("refpoint:same_tensor_updated_in_place")
+                        else:
+                            rec.label("refpoint:same_tensors_again")
+                    if hs and hi:
+                        prev_ref = (sa, ia, xs, us)
                 else:
                     xs, us = L.draw_xu(rs)
                     sa, ia = _t(xs, "float64"), _t(us, "float64")
